@@ -322,6 +322,10 @@ fn main() {
             if monitor {
                 futures_buffered::verif::set_probe(Some(mt::mt_probe));
                 mt::set_failpoints(fp);
+            } else if fp > 0 {
+                // delays only: no monitor state, no locks (sanitizer / Miri runs)
+                futures_buffered::verif::set_probe(Some(mt::fp_only_probe));
+                mt::set_failpoints(fp);
             } else {
                 futures_buffered::verif::set_probe(None);
             }
@@ -345,9 +349,10 @@ fn main() {
                 let cfg = mt::RoundCfg {
                     n: if small { r.range(1, 5) } else { *r.pick(&[1usize, 2, 3, 4, 8, 16, 33, 64, 70]) },
                     threads: if small { r.range(1, 2) } else { r.range(1, 8) },
-                    calls: if small { r.range(4, 20) } else { r.range(10, 400) },
+                    calls: if small { r.range(4, 20) } else { *r.pick(&[2usize, 5, 10, 20, 40, 80, 200, 400]) },
                     track_blocks: monitor,
                     migrate: r.chance(1, 4),
+                    cancel_after: if r.chance(1, 4) { Some(r.range(1, 12) as u64) } else { None },
                     kind,
                 };
                 let rs = prng::splitmix(&mut (seed ^ i.wrapping_mul(0x9E37_79B9_7F4A_7C15)));
@@ -375,6 +380,7 @@ fn main() {
                 *tot.entry("task_waker_switches").or_insert(0) += st.task_switches;
                 *tot.entry("items_yielded").or_insert(0) += st.items;
                 *tot.entry("rounds_with_consumer_on_another_thread").or_insert(0) += cfg.migrate as u64;
+                *tot.entry("rounds_cancelled_while_wakers_running").or_insert(0) += st.cancelled as u64;
                 let nt = match prop {
                     3 => st.orphan_calls > 0,
                     _ => st.overlapping_wakes > 0,
